@@ -15,6 +15,21 @@
 //!                               sample, `e` = empty vector)
 //!   ff / ffv                    FORMAT Float Number=1 / Number=.
 //!   gt  0u,1p;.u,.p;e           FORMAT GT: per sample alleles `<pos|.><p|u>` (`e` = ploidy 0)
+//!   ic  hex                     INFO Character Number=1 (one ASCII byte)
+//!   icv 61,.,2c                 INFO Character Number=. (elements: hex byte or `.`)
+//!   isv 6162,.,_                INFO String Number=.    (elements: hex, `_` = empty, `.` = missing)
+//!   fc / fcv / fs / fsv         FORMAT Character / String, Number=1 / Number=., samples split by `;`
+//!                               (for these kinds the read-back observation is `Fail` for a panic
+//!                               and for an error alike)
+//!   sm  I:K0:3,L:PASS:-,M:Q1:7 c0:1,c1:-   the dictionaries of strings and of contigs built from
+//!                               header lines (I = INFO, L = FILTER, M = FORMAT; name; IDX or `-`),
+//!                               by the writer (StringMaps::try_from(&Header)) and by the reader
+//!                               (BCF header written, read back: header.string_maps()); obs = both
+//!                               maps: slots and index of every name
+//!   hd  <string lines> <contig lines> chrom pos|. rlen qual|. ids ref alts filters flags n_sample fmt
+//!                               a record head: generated dictionaries (as `sm`), site fields, INFO
+//!                               flags, FORMAT Integer scalars; obs = the whole record as written and
+//!                               chrom|pos|qual|ids|ref|alts|filters|n_info|n_fmt|n_sample read back
 //! Implementation-only oracle:
 //!   rec profile seed            a generated header (+IDX assignments) and record, written as BCF,
 //!                               read back through read_record_buf and through the lazy bcf::Record,
@@ -726,6 +741,30 @@ fn parse_opt_u32s(s: &str) -> Vec<Option<u32>> {
     s.split(',').map(|t| if t == "." { None } else { Some(t.parse().expect("u32")) }).collect()
 }
 
+fn hex_str(t: &str) -> String {
+    String::from_utf8(unhex(t)).expect("utf8")
+}
+
+fn hex_char(t: &str) -> char {
+    let b = unhex(t);
+    assert!(b.len() == 1 && b[0] < 128, "ASCII character");
+    b[0] as char
+}
+
+fn parse_opt_strs(s: &str) -> Vec<Option<String>> {
+    if s == "e" {
+        return vec![];
+    }
+    s.split(',').map(|t| if t == "." { None } else { Some(hex_str(t)) }).collect()
+}
+
+fn parse_opt_chars(s: &str) -> Vec<Option<char>> {
+    if s == "e" {
+        return vec![];
+    }
+    s.split(',').map(|t| if t == "." { None } else { Some(hex_char(t)) }).collect()
+}
+
 fn parse_gt(s: &str) -> Vec<(Option<usize>, bool)> {
     if s == "e" {
         return vec![];
@@ -748,6 +787,7 @@ fn micro_header(info: bool, id: &str, num: &str, ty: &str, nsamples: usize) -> H
         ty: match ty {
             "Integer" => Ty::Int,
             "Float" => Ty::Float,
+            "Character" => Ty::Char,
             _ => Ty::Str,
         },
         idx: None,
@@ -802,6 +842,40 @@ fn micro(c: &Case) -> Option<(Hdr, Rec)> {
             r.info = vec![("X".into(), Some(V::S(String::from_utf8(unhex(a(0))).unwrap())))];
             micro_header(true, "X", "1", "String", 0)
         }
+        "ic" => {
+            r.info = vec![("X".into(), Some(V::C(hex_char(a(0)))))];
+            micro_header(true, "X", "1", "Character", 0)
+        }
+        "icv" => {
+            r.info = vec![("X".into(), Some(V::AC(parse_opt_chars(a(0)))))];
+            micro_header(true, "X", ".", "Character", 0)
+        }
+        "isv" => {
+            r.info = vec![("X".into(), Some(V::AS(parse_opt_strs(a(0)))))];
+            micro_header(true, "X", ".", "String", 0)
+        }
+        "fc" | "fcv" | "fs" | "fsv" => {
+            let per: Vec<&str> = a(0).split(';').collect();
+            r.keys = vec!["X".to_string()];
+            r.samples = per
+                .iter()
+                .map(|s| {
+                    vec![match c.kind.as_str() {
+                        _ if *s == "." => None,
+                        "fc" => Some(V::C(hex_char(s))),
+                        "fcv" => Some(V::AC(parse_opt_chars(s))),
+                        "fs" => Some(V::S(hex_str(s))),
+                        _ => Some(V::AS(parse_opt_strs(s))),
+                    }]
+                })
+                .collect();
+            match c.kind.as_str() {
+                "fc" => micro_header(false, "X", "1", "Character", per.len()),
+                "fcv" => micro_header(false, "X", ".", "Character", per.len()),
+                "fs" => micro_header(false, "X", "1", "String", per.len()),
+                _ => micro_header(false, "X", ".", "String", per.len()),
+            }
+        }
         "fi" | "fv" | "ff" | "ffv" | "gt" => {
             let per: Vec<&str> = a(0).split(';').collect();
             r.keys = vec![if c.kind == "gt" { "GT".to_string() } else { "X".to_string() }];
@@ -841,14 +915,16 @@ fn finish(mut o: Obs, verdict: Result<(), (String, String)>) -> Obs {
     }
 }
 
-fn run_micro(_c: &Case, h: &Hdr, r: &Rec) -> Obs {
+fn run_micro(c: &Case, h: &Hdr, r: &Rec) -> Obs {
+    // Character/String kinds: the reader's failure mode (panic or error) is one observation
+    let fail_as_one = matches!(c.kind.as_str(), "ic" | "icv" | "isv" | "fc" | "fcv" | "fs" | "fsv");
     let header = parse_header(&header_text(h)).expect("micro header");
     let rb = to_buf(r);
     let is_info = !r.info.is_empty();
     let w = write_bcf(&header, &rb);
-    let (wobs, robs) = match &w {
-        WriteRes::Err(k) => (format!("Err:{k}"), "-".to_string()),
-        WriteRes::Panic(_) => ("Panic".to_string(), "-".to_string()),
+    let (wobs, robs, recobs) = match &w {
+        WriteRes::Err(k) => (format!("Err:{k}"), "-".to_string(), format!("Err:{k}")),
+        WriteRes::Panic(_) => ("Panic".to_string(), "-".to_string(), "Panic".to_string()),
         WriteRes::Ok { stream, hlen } => {
             let rec = &stream[*hlen..];
             let l_shared = u32::from_le_bytes(rec[0..4].try_into().unwrap()) as usize;
@@ -878,14 +954,16 @@ fn run_micro(_c: &Case, h: &Hdr, r: &Rec) -> Obs {
                             .join(";")
                     }
                 }
+                Err(_) if fail_as_one => "Fail".into(),
                 Err(e) if e.starts_with("Panic") => "Panic".into(),
                 Err(_) => "Err".into(),
             };
-            (hex(typed), rd)
+            (hex(typed), rd, hex(rec))
         }
     };
     let (verdict, nontrivial) = check_record(h, r);
-    finish(Obs::ok(format!("{wobs} {robs}"), nontrivial), verdict)
+    // the third token is the whole record as written (l_shared, l_indiv, site, samples)
+    finish(Obs::ok(format!("{wobs} {robs} R:{recobs}"), nontrivial), verdict)
 }
 
 // ---------------------------------------------------------------------------------------------
@@ -1191,6 +1269,247 @@ fn generate(rng: &mut Rng, tier: &str, w: &mut CaseWriter) {
         w.push("gt", vec![s.to_string()]);
     }
 
+    // --- Character / String values and series (ASCII characters; strings incl. the special class)
+    const SPECIAL_STRS: [&str; 14] = ["", ".", "a,b", ",", "a,", ",a", "..", "a.b", "\u{e9}", "a\0b", " ", ".,.", "x;y=z", "\0"];
+    const SPECIAL_CHARS: [char; 7] = ['.', ',', ';', ' ', '%', '=', ':'];
+    fn g_str(rng: &mut Rng, special: bool) -> String {
+        if special && rng.chance(1, 3) { rng.pick(&SPECIAL_STRS).to_string() } else { gen_word(rng, 1, 9) }
+    }
+    fn g_chr(rng: &mut Rng, special: bool) -> char {
+        if special && rng.chance(1, 3) { *rng.pick(&SPECIAL_CHARS) } else { gen_word(rng, 1, 1).chars().next().unwrap() }
+    }
+    fn f_strs(v: &[Option<String>]) -> String {
+        if v.is_empty() {
+            return "e".into();
+        }
+        v.iter().map(|x| x.as_ref().map(|s| hex(s.as_bytes())).unwrap_or_else(|| ".".into())).collect::<Vec<_>>().join(",")
+    }
+    fn f_chars(v: &[Option<char>]) -> String {
+        if v.is_empty() {
+            return "e".into();
+        }
+        v.iter().map(|x| x.map(|c| hex(&[c as u8])).unwrap_or_else(|| ".".into())).collect::<Vec<_>>().join(",")
+    }
+    for b in 0x20u8..0x7f {
+        w.push("ic", vec![hex(&[b])]);
+    }
+    for &ch in SPECIAL_CHARS.iter() {
+        w.push("icv", vec![f_chars(&[Some('a'), Some(ch)])]);
+        w.push("fc", vec![format!("{};{}", hex(&[ch as u8]), hex(b"a"))]);
+        w.push("fcv", vec![format!("{};.", f_chars(&[Some('a'), Some(ch), None]))]);
+    }
+    for t in SPECIAL_STRS.iter() {
+        w.push("isv", vec![f_strs(&[Some(t.to_string())])]);
+        w.push("isv", vec![f_strs(&[Some("q".to_string()), Some(t.to_string())])]);
+        w.push("fs", vec![hex(t.as_bytes())]);
+        w.push("fs", vec![format!("{};{};.", hex(t.as_bytes()), hex(b"abc"))]);
+        w.push("fsv", vec![f_strs(&[Some(t.to_string())])]);
+        w.push("fsv", vec![format!("{};.;{}", f_strs(&[Some(t.to_string()), None, Some("zz".into())]), f_strs(&[Some("w".into())]))]);
+    }
+    for s in [".", ".,.", "e", ".,61"] {
+        w.push("icv", vec![s.to_string()]);
+        w.push("isv", vec![s.to_string()]);
+    }
+    for s in [".;.", ".", "e;.", ".,.;61", "e"] {
+        w.push("fsv", vec![s.to_string()]);
+    }
+    // every sample missing (written as one "." cell per sample since fix 17)
+    for s in [".", ".;.", ".;.;."] {
+        w.push("fc", vec![s.to_string()]);
+        w.push("fcv", vec![s.to_string()]);
+        w.push("fs", vec![s.to_string()]);
+    }
+    for _ in 0..120 * mul {
+        let special = rng.chance(1, 3);
+        let miss = rng.range(0, 3);
+        let len = match rng.below(6) {
+            0 => rng.range(7, 9) as usize, // joined length around the 15-byte descriptor edge
+            _ => rng.range(1, 4) as usize,
+        };
+        let cv: Vec<Option<char>> = (0..len).map(|_| if rng.chance(miss, 10) { None } else { Some(g_chr(rng, special)) }).collect();
+        w.push("icv", vec![f_chars(&cv)]);
+        let sv: Vec<Option<String>> = (0..len).map(|_| if rng.chance(miss, 10) { None } else { Some(g_str(rng, special)) }).collect();
+        w.push("isv", vec![f_strs(&sv)]);
+        // series: mostly at least one present value
+        let ns = rng.range(1, 4) as usize;
+        let keep = rng.below(ns as u64) as usize;
+        let per: Vec<String> = (0..ns)
+            .map(|i| if i != keep && rng.chance(1, 4) { ".".into() } else { hex(&[g_chr(rng, special) as u8]) })
+            .collect();
+        w.push("fc", vec![per.join(";")]);
+        let per: Vec<String> = (0..ns)
+            .map(|i| {
+                if i != keep && rng.chance(1, 4) {
+                    ".".into()
+                } else {
+                    let l = rng.range(1, 4) as usize;
+                    f_chars(&(0..l).map(|_| if rng.chance(miss, 10) { None } else { Some(g_chr(rng, special)) }).collect::<Vec<_>>())
+                }
+            })
+            .collect();
+        w.push("fcv", vec![per.join(";")]);
+        let per: Vec<String> = (0..ns)
+            .map(|i| if i != keep && rng.chance(1, 4) { ".".into() } else { hex(g_str(rng, special).as_bytes()) })
+            .collect();
+        w.push("fs", vec![per.join(";")]);
+        let per: Vec<String> = (0..ns)
+            .map(|_| {
+                if rng.chance(1, 4) {
+                    ".".into()
+                } else {
+                    let l = rng.range(1, 4) as usize;
+                    f_strs(&(0..l).map(|_| if rng.chance(miss, 10) { None } else { Some(g_str(rng, special)) }).collect::<Vec<_>>())
+                }
+            })
+            .collect();
+        w.push("fsv", vec![per.join(";")]);
+    }
+    // long cells: descriptor overflow lengths for a series
+    for l in [14usize, 15, 16, 127, 128, 300] {
+        let s = gen_word(rng, l as u64, l as u64);
+        w.push("fs", vec![format!("{};{}", hex(s.as_bytes()), hex(b"ab"))]);
+        w.push("fsv", vec![format!("{},{};.", hex(s.as_bytes()), hex(b"ab"))]);
+    }
+
+    // --- string maps from header lines: no IDX, IDX = order, injective IDX with gaps, and wild
+    // (colliding / mismatching) assignments
+    for i in 0..(150 * mul) {
+        let ninfo = rng.range(0, 4) as usize;
+        let nfilt = rng.range(0, 3) as usize;
+        let nfmt = rng.range(0, 4) as usize;
+        let mut lines: Vec<(char, String)> = Vec::new();
+        for k in 0..ninfo {
+            lines.push(('I', format!("K{k}")));
+        }
+        if rng.chance(1, 2) {
+            lines.push(('L', "PASS".into()));
+        }
+        for k in 0..nfilt {
+            lines.push(('L', format!("f{k}")));
+        }
+        for k in 0..nfmt {
+            // some FORMAT ids are INFO ids
+            lines.push(('M', if k < ninfo && rng.chance(1, 3) { format!("K{k}") } else { format!("Q{k}") }));
+        }
+        let mut names: Vec<String> = Vec::new();
+        for (_, n) in &lines {
+            if n != "PASS" && !names.contains(n) {
+                names.push(n.clone());
+            }
+        }
+        let mode = i % 5;
+        let mut assign: std::collections::HashMap<String, usize> = std::collections::HashMap::new();
+        match mode {
+            1 => {
+                for (j, n) in names.iter().enumerate() {
+                    assign.insert(n.clone(), j + 1);
+                }
+            }
+            2 | 3 => {
+                let gap = *rng.pick(&[0usize, 3, 130, 40000]);
+                let mut slots: Vec<usize> = (1..=names.len() + gap).collect();
+                for n in &names {
+                    let k = rng.below(slots.len() as u64) as usize;
+                    assign.insert(n.clone(), slots.swap_remove(k));
+                }
+            }
+            _ => {}
+        }
+        assign.insert("PASS".into(), 0);
+        let ls: Vec<String> = lines
+            .iter()
+            .map(|(k, n)| {
+                let idx = match mode {
+                    0 => None,
+                    1 | 2 => assign.get(n).copied(),
+                    // explicit on some lines only
+                    3 => if rng.chance(1, 2) { assign.get(n).copied() } else { None },
+                    // wild: small random indices, collisions and mismatches included
+                    _ => if rng.chance(1, 4) { None } else { Some(rng.range(0, 6) as usize) },
+                };
+                format!("{k}:{n}:{}", idx.map(|i| i.to_string()).unwrap_or_else(|| "-".into()))
+            })
+            .collect();
+        let nc = rng.range(0, 3) as usize;
+        let mut cslots: Vec<usize> = (0..nc + 2).collect();
+        let cs: Vec<String> = (0..nc)
+            .map(|k| {
+                let idx = match mode {
+                    0 => None,
+                    1 => Some(k),
+                    2 | 3 => { let j = rng.below(cslots.len() as u64) as usize; Some(cslots.remove(j)) }
+                    _ => if rng.chance(1, 3) { None } else { Some(rng.range(0, 3) as usize) },
+                };
+                format!("c{k}:{}", idx.map(|i| i.to_string()).unwrap_or_else(|| "-".into()))
+            })
+            .collect();
+        let j = |v: Vec<String>| if v.is_empty() { "_".to_string() } else { v.join(",") };
+        w.push("sm", vec![j(ls), j(cs)]);
+    }
+    for (a, b) in [("I:A:1,I:B:1", "_"), ("I:A:-,I:B:1", "_"), ("L:PASS:5", "_"), ("I:A:0", "_"), ("I:A:2,M:A:3", "_"), ("I:A:-,M:A:1", "c0:1,c1:1"), ("I:A:5,I:B:-", "c0:1,c1:-"), ("_", "_")] {
+        w.push("sm", vec![a.to_string(), b.to_string()]);
+    }
+
+    // --- record heads: framing, fixed site fields, ids / alleles / FILTER, n_fmt / n_sample packing
+    for i in 0..(200 * mul) {
+        let ninfo = rng.range(0, 4) as usize;
+        let nfilt = rng.range(0, 4) as usize;
+        let nfmt = rng.range(0, 3) as usize;
+        let ncontig = rng.range(1, 3) as usize;
+        let mut names: Vec<(char, String)> = Vec::new();
+        for k in 0..ninfo { names.push(('I', format!("K{k}"))); }
+        if rng.chance(1, 2) { names.push(('L', "PASS".into())); }
+        for k in 0..nfilt { names.push(('L', format!("f{k}"))); }
+        for k in 0..nfmt { names.push(('M', format!("Q{k}"))); }
+        // IDX: none, or an injective assignment with gaps (so that indices need Int8/Int16/Int32)
+        let gap = *rng.pick(&[0usize, 0, 120, 130, 33000]);
+        let explicit = i % 2 == 1;
+        let mut slots: Vec<usize> = (1..=names.len() + gap).collect();
+        let ls: Vec<String> = names.iter().map(|(k, n)| {
+            let idx = if !explicit { None } else if n == "PASS" { Some(0) } else { let j = rng.below(slots.len() as u64) as usize; Some(slots.swap_remove(j)) };
+            format!("{k}:{n}:{}", idx.map(|i| i.to_string()).unwrap_or_else(|| "-".into()))
+        }).collect();
+        let mut cslots: Vec<usize> = (0..ncontig + 3).collect();
+        let cs: Vec<String> = (0..ncontig).map(|k| {
+            let idx = if !explicit { None } else { let j = rng.below(cslots.len() as u64) as usize; Some(cslots.remove(j)) };
+            format!("c{k}:{}", idx.map(|i| i.to_string()).unwrap_or_else(|| "-".into()))
+        }).collect();
+        let chrom = if rng.chance(1, 30) { "nope".to_string() } else { format!("c{}", rng.below(ncontig as u64)) };
+        let pos = match rng.below(6) {
+            0 => ".".to_string(),
+            1 => "1".to_string(),
+            2 => "2147483647".to_string(),
+            3 => if rng.chance(1, 3) { "2147483648".to_string() } else { rng.range(1, 1 << 31).to_string() },
+            _ => rng.range(1, 100000).to_string(),
+        };
+        let qual = match rng.below(3) { 0 => ".".to_string(), _ => { let res = rng.chance(1, 10); gen_float(rng, res).to_string() } };
+        let nid = *rng.pick(&[0usize, 0, 1, 2, 3]);
+        let ids: Vec<String> = (0..nid).map(|_| if rng.chance(1, 15) { hex(rng.pick(&["", "a;b", "."]).as_bytes()) } else { hex(gen_word(rng, 1, 9).as_bytes()) }).collect();
+        let bases = |rng: &mut Rng| -> String { let n = rng.range(1, 20); (0..n).map(|_| *rng.pick(&['A', 'C', 'G', 'T'])).collect() };
+        let refb = bases(rng);
+        let nalt = *rng.pick(&[0usize, 1, 1, 2, 3]);
+        let alts: Vec<String> = (0..nalt).map(|_| if rng.chance(1, 8) { "<DEL>".to_string() } else { bases(rng) }).collect();
+        let mut filt: Vec<String> = Vec::new();
+        match rng.below(4) {
+            0 => {}
+            1 => filt.push("PASS".into()),
+            _ => {
+                for k in 0..nfilt { if rng.chance(1, 2) { filt.push(format!("f{k}")); } }
+                if rng.chance(1, 25) { filt.push("zz".into()); }
+            }
+        }
+        let flags: Vec<String> = (0..ninfo).filter(|_| rng.chance(2, 3)).map(|k| format!("K{k}")).collect();
+        let ns = if nfmt == 0 { *rng.pick(&[0usize, 0, 2]) } else { rng.range(1, 3) as usize };
+        let fm: Vec<String> = (0..nfmt).map(|k| {
+            let v: Vec<String> = (0..ns).map(|_| if rng.chance(1, 5) { ".".into() } else { let wd = rng.below(3); gen_int_in_width(rng, wd).to_string() }).collect();
+            format!("Q{k}={}", v.join(";"))
+        }).collect();
+        let j = |v: Vec<String>| if v.is_empty() { "_".to_string() } else { v.join(",") };
+        let e = |v: Vec<String>, sep: &str| if v.is_empty() { "e".to_string() } else { v.join(sep) };
+        w.push("hd", vec![j(ls), j(cs), chrom, pos, refb.len().to_string(), qual, e(ids, ","), hex(refb.as_bytes()),
+            e(alts.iter().map(|s| hex(s.as_bytes())).collect(), ","), e(filt, ","), e(flags, ","), ns.to_string(), e(fm, "|")]);
+    }
+
     // --- whole records
     let n_rec = if thorough { 40000 } else { 3000 };
     for i in 0..n_rec {
@@ -1477,7 +1796,293 @@ fn gen_record(rng: &mut Rng, h: &Hdr, profile: &str) -> Rec {
     r
 }
 
+
+// ---------------------------------------------------------------------------------------------
+// `sm`: the string maps built from header lines.
+
+fn sm_lines(s: &str) -> Vec<(String, String, Option<usize>)> {
+    if s == "_" {
+        return vec![];
+    }
+    s.split(',')
+        .map(|t| {
+            let p: Vec<&str> = t.split(':').collect();
+            match p.len() {
+                3 => (p[0].to_string(), p[1].to_string(), if p[2] == "-" { None } else { Some(p[2].parse().unwrap()) }),
+                _ => (String::new(), p[0].to_string(), if p[1] == "-" { None } else { Some(p[1].parse().unwrap()) }),
+            }
+        })
+        .collect()
+}
+
+fn sm_dump(m: &vcf::header::string_maps::StringMap, names: &[&String], limit: usize) -> (String, bool) {
+    let mut slots: Vec<Option<&str>> = (0..limit).map(|i| m.get_index(i)).collect();
+    while slots.last().map(|x| x.is_none()).unwrap_or(false) {
+        slots.pop();
+    }
+    let mut seen: Vec<&String> = Vec::new();
+    let mut look = Vec::new();
+    let mut resolves = true;
+    for n in names {
+        if seen.contains(n) {
+            continue;
+        }
+        seen.push(n);
+        match m.get_index_of(n) {
+            Some(i) => {
+                look.push(format!("{n}={i}"));
+                resolves &= m.get_index(i) == Some(n.as_str());
+            }
+            None => {
+                look.push(format!("{n}=-"));
+                resolves = false;
+            }
+        }
+    }
+    (
+        format!(
+            "[{}]{{{}}}",
+            slots.iter().map(|x| x.unwrap_or("-").to_string()).collect::<Vec<_>>().join(","),
+            look.join(",")
+        ),
+        resolves,
+    )
+}
+
+/// input class: some line carries an explicit IDX for an ID seen for the first time while that
+/// slot is already taken by a different ID (dictionary order: INFO, FILTER, FORMAT lines)
+fn sm_idx_conflict(lines: &[(String, String, Option<usize>)], strings: bool) -> bool {
+    let mut slots: Vec<Option<&str>> = if strings { vec![Some("PASS")] } else { vec![] };
+    let ordered: Vec<&(String, String, Option<usize>)> = if strings {
+        ["I", "L", "M"].iter().flat_map(|k| lines.iter().filter(move |l| l.0 == *k)).collect()
+    } else {
+        lines.iter().collect()
+    };
+    for (_, n, idx) in ordered {
+        if slots.iter().any(|x| *x == Some(n.as_str())) {
+            continue;
+        }
+        match idx {
+            None => slots.push(Some(n)),
+            Some(i) => {
+                if *i >= slots.len() {
+                    slots.resize(*i + 1, None);
+                }
+                if slots[*i].is_some() {
+                    return true;
+                }
+                slots[*i] = Some(n);
+            }
+        }
+    }
+    false
+}
+
+fn run_sm(c: &Case) -> Obs {
+    let strings = sm_lines(&c.args[0]);
+    let contigs = sm_lines(&c.args[1]);
+    let idx = |i: &Option<usize>| i.map(|i| format!(",IDX={i}")).unwrap_or_default();
+    let mut text = String::from("##fileformat=VCFv4.4\n");
+    for (k, n, i) in strings.iter().filter(|l| l.0 == "I") {
+        let _ = k;
+        text += &format!("##INFO=<ID={n},Number=1,Type=Integer,Description=\"d\"{}>\n", idx(i));
+    }
+    for (_, n, i) in strings.iter().filter(|l| l.0 == "L") {
+        text += &format!("##FILTER=<ID={n},Description=\"d\"{}>\n", idx(i));
+    }
+    for (_, n, i) in strings.iter().filter(|l| l.0 == "M") {
+        text += &format!("##FORMAT=<ID={n},Number=1,Type=Integer,Description=\"d\"{}>\n", idx(i));
+    }
+    for (_, n, i) in &contigs {
+        text += &format!("##contig=<ID={n}{}>\n", idx(i));
+    }
+    text += "#CHROM\tPOS\tID\tREF\tALT\tQUAL\tFILTER\tINFO\n";
+    let header = match parse_header(&text) {
+        Ok(h) => h,
+        Err(e) => return Obs::fail("HeaderRejected", "header-rejected", &e),
+    };
+    let limit = strings.iter().chain(contigs.iter()).filter_map(|l| l.2).max().unwrap_or(0) + strings.len() + contigs.len() + 3;
+    let pass = "PASS".to_string();
+    let mut all_s: Vec<&String> = vec![&pass];
+    all_s.extend(strings.iter().map(|l| &l.1));
+    let cnames: Vec<&String> = contigs.iter().map(|l| &l.1).collect();
+    let dump = |sm: &vcf::header::StringMaps| -> (String, bool) {
+        let (a, ra) = sm_dump(sm.strings(), &all_s, limit);
+        let (b, rb) = sm_dump(sm.contigs(), &cnames, limit);
+        (format!("S{a};C{b}"), ra && rb)
+    };
+    // writer side
+    let w = match guarded(AssertUnwindSafe(|| vcf::header::StringMaps::try_from(&header))) {
+        Outcome::Done(Ok(sm)) => Some(dump(&sm)),
+        Outcome::Done(Err(_)) => None,
+        Outcome::Panicked(m) => return Obs::fail("Panic", "string-maps-panic", &m),
+    };
+    // reader side: write the BCF header, read it back
+    let r = match guarded(AssertUnwindSafe(|| -> std::io::Result<vcf::Header> {
+        let mut wr = bcf::io::Writer::from(Vec::new());
+        wr.write_header(&header)?;
+        let buf = wr.into_inner();
+        let mut rd = bcf::io::Reader::from(&buf[..]);
+        rd.read_header()
+    })) {
+        Outcome::Done(Ok(h)) => Some(dump(h.string_maps())),
+        Outcome::Done(Err(_)) => None,
+        Outcome::Panicked(m) => return Obs::fail("Panic", "string-maps-panic", &m),
+    };
+    let show = |x: &Option<(String, bool)>| x.as_ref().map(|d| d.0.clone()).unwrap_or_else(|| "Err".into());
+    let obs = format!("W={}|R={}", show(&w), show(&r));
+    let verdict = match (&w, &r) {
+        (Some(a), Some(b)) if a.0 != b.0 => Err(("string-map-writer-reader-differ".to_string(), obs.clone())),
+        // an ID that does not resolve back to itself.  Known input class: a line's explicit IDX names
+        // a slot that an earlier, different ID already occupies (by its own IDX or by order of
+        // appearance); both lines are accepted and share the slot
+        (Some(a), Some(b)) if !(a.1 && b.1) => {
+            let tag = if sm_idx_conflict(&strings, true) || sm_idx_conflict(&contigs, false) {
+                "header-idx-conflict-accepted"
+            } else {
+                "string-map-unresolved"
+            };
+            Err((tag.to_string(), obs.clone()))
+        }
+        (Some(_), None) | (None, Some(_)) => Err(("string-map-writer-reader-differ".to_string(), obs.clone())),
+        _ => Ok(()),
+    };
+    Obs::ok(obs, w.is_some() && r.is_some()).with_verdict(verdict)
+}
+
+// ---------------------------------------------------------------------------------------------
+// `hd`: record framing and the site fields.
+
+fn run_hd(c: &Case) -> Obs {
+    let a = |i: usize| c.args[i].as_str();
+    let strings = sm_lines(a(0));
+    let contigs = sm_lines(a(1));
+    let list = |s: &str| -> Vec<String> { if s == "e" { vec![] } else { s.split(',').map(|t| t.to_string()).collect() } };
+    let hexl = |s: &str| -> Vec<String> { if s == "e" { vec![] } else { s.split(',').map(hex_str).collect() } };
+    let flags = list(a(10));
+    let ns: usize = a(11).parse().unwrap();
+    let fmts: Vec<(String, Vec<Option<i32>>)> = if a(12) == "e" {
+        vec![]
+    } else {
+        a(12)
+            .split('|')
+            .map(|t| {
+                let (k, v) = t.split_once('=').unwrap();
+                (k.to_string(), v.split(';').map(|x| if x == "." { None } else { Some(x.parse().unwrap()) }).collect())
+            })
+            .collect()
+    };
+    let idx = |i: &Option<usize>| i.map(|i| format!(",IDX={i}")).unwrap_or_default();
+    let mut text = String::from("##fileformat=VCFv4.4\n");
+    for (_, n, i) in strings.iter().filter(|l| l.0 == "I") {
+        text += &format!("##INFO=<ID={n},Number=0,Type=Flag,Description=\"d\"{}>\n", idx(i));
+    }
+    for (_, n, i) in strings.iter().filter(|l| l.0 == "L") {
+        text += &format!("##FILTER=<ID={n},Description=\"d\"{}>\n", idx(i));
+    }
+    for (_, n, i) in strings.iter().filter(|l| l.0 == "M") {
+        text += &format!("##FORMAT=<ID={n},Number=1,Type=Integer,Description=\"d\"{}>\n", idx(i));
+    }
+    for (_, n, i) in &contigs {
+        text += &format!("##contig=<ID={n}{}>\n", idx(i));
+    }
+    text += "#CHROM\tPOS\tID\tREF\tALT\tQUAL\tFILTER\tINFO";
+    if ns > 0 {
+        text += "\tFORMAT";
+        for i in 0..ns {
+            text += &format!("\ts{i}");
+        }
+    }
+    text += "\n";
+    let header = match parse_header(&text) {
+        Ok(h) => h,
+        Err(e) => return Obs::fail("HeaderRejected -", "header-rejected", &e),
+    };
+    let r = Rec {
+        chrom: a(2).to_string(),
+        pos: if a(3) == "." { 1 } else { a(3).parse().unwrap() },
+        ids: hexl(a(6)),
+        refb: hex_str(a(7)),
+        alts: hexl(a(8)),
+        qual: if a(5) == "." { None } else { Some(a(5).parse().unwrap()) },
+        filters: list(a(9)),
+        info: flags.iter().map(|k| (k.clone(), Some(V::Flag))).collect(),
+        keys: fmts.iter().map(|f| f.0.clone()).collect(),
+        samples: if fmts.is_empty() { vec![] } else { (0..ns).map(|j| fmts.iter().map(|f| f.1[j].map(V::I)).collect()).collect() },
+    };
+    let mut rb = to_buf(&r);
+    if a(3) == "." {
+        *rb.variant_start_mut() = None;
+    }
+    assert_eq!(a(4).parse::<usize>().unwrap(), r.refb.len(), "rlen is the number of reference bases");
+    let (wobs, robs, ok) = match write_bcf(&header, &rb) {
+        WriteRes::Err(k) if k.starts_with("Header:") => ("HeaderErr".to_string(), "-".to_string(), false),
+        WriteRes::Err(k) => (format!("Err:{k}"), "-".to_string(), false),
+        WriteRes::Panic(_) => ("Panic".to_string(), "-".to_string(), false),
+        WriteRes::Ok { stream, hlen } => {
+            let back = match read_via_buf(&stream) {
+                Ok((_, b)) => {
+                    let x = of_buf(&b);
+                    let pos = if b.variant_start().is_none() { ".".to_string() } else { x.pos.to_string() };
+                    let hx = |v: &Vec<String>, sep: &str| v.iter().map(|s| hex(s.as_bytes())).collect::<Vec<_>>().join(sep);
+                    format!(
+                        "{}|{}|{}|{}|{}|{}|{}|{}|{}|{}",
+                        x.chrom,
+                        pos,
+                        opt(&x.qual, |q| format!("{q:08x}")),
+                        hx(&x.ids, ";"),
+                        hex(x.refb.as_bytes()),
+                        hx(&x.alts, ","),
+                        x.filters.join(";"),
+                        x.info.len(),
+                        x.keys.len(),
+                        if x.keys.is_empty() { ns } else { x.samples.len() }
+                    )
+                }
+                Err(_) => "Fail".into(),
+            };
+            (hex(&stream[hlen..]), back, true)
+        }
+    };
+    // the oracle: the head fields come back as given
+    let verdict = if ok {
+        let want = format!(
+            "{}|{}|{}|{}|{}|{}|{}|{}|{}|{}",
+            r.chrom,
+            a(3),
+            opt(&r.qual, |q| format!("{q:08x}")),
+            r.ids.iter().map(|s| hex(s.as_bytes())).collect::<Vec<_>>().join(";"),
+            hex(r.refb.as_bytes()),
+            r.alts.iter().map(|s| hex(s.as_bytes())).collect::<Vec<_>>().join(","),
+            r.filters.join(";"),
+            r.info.len(),
+            r.keys.len(),
+            ns
+        );
+        let special = r.ids.iter().any(|s| s.is_empty() || s.contains(';')) || r.alts.iter().any(|s| s.is_empty()) || r.refb.is_empty()
+            || r.qual.map(is_reserved_nan).unwrap_or(false);
+        if robs == want {
+            Ok(())
+        } else if special {
+            Err(("SKIP".to_string(), String::new()))
+        } else if sm_idx_conflict(&strings, true) || sm_idx_conflict(&contigs, false) {
+            Err(("header-idx-conflict-accepted".to_string(), format!("{robs} != {want}")))
+        } else {
+            Err(("site-head-differs".to_string(), format!("{robs} != {want}")))
+        }
+    } else {
+        Ok(())
+    };
+    finish(Obs::ok(format!("{wobs} {robs}"), ok), verdict)
+}
+
 fn run(c: &Case) -> Obs {
+    if c.kind == "hd" {
+        return run_hd(c);
+    }
+    if c.kind == "sm" {
+        return run_sm(c);
+    }
     if let Some((h, r)) = micro(c) {
         return run_micro(c, &h, &r);
     }
